@@ -152,41 +152,66 @@ Definition block_overlap_at (whole : block) (o : val) (b : block) : option block
   end.
 
 (* apply a block rewrite to the first block (pre-order) on which it succeeds *)
-Fixpoint rw_stmt (f : block -> option block) (s : stmt) {struct s} : option stmt :=
+Section Rw.
+Variable f : block -> option block.
+
+Fixpoint rw_stmt (s : stmt) {struct s} : option stmt :=
   let rw_blk := fix rw_blk (b : list stmt) {struct b} : option (list stmt) :=
-    match f b with
-    | Some b' => Some b'
-    | None =>
-        (fix inner (b : list stmt) : option (list stmt) :=
-           match b with
-           | [] => None
-           | x :: b' => match rw_stmt f x with
-                        | Some x' => Some (x' :: b')
-                        | None => match inner b' with Some r => Some (x :: r) | None => None end
-                        end
-           end) b
+    match b with
+    | [] => None
+    | x :: b' => match rw_stmt x with
+                 | Some x' => Some (x' :: b')
+                 | None => match rw_blk b' with Some r => Some (x :: r) | None => None end
+                 end
     end in
   match s with
   | SFor iv lb ub sp iters rs body ys =>
-      match rw_blk body with Some body' => Some (SFor iv lb ub sp iters rs body' ys) | None => None end
+      match (match f body with Some b' => Some b' | None => rw_blk body end) with
+      | Some body' => Some (SFor iv lb ub sp iters rs body' ys) | None => None end
   | SIf c rs th thy el ely =>
-      match rw_blk th with
+      match (match f th with Some b' => Some b' | None => rw_blk th end) with
       | Some th' => Some (SIf c rs th' thy el ely)
-      | None => match rw_blk el with Some el' => Some (SIf c rs th thy el' ely) | None => None end
+      | None => match (match f el with Some b' => Some b' | None => rw_blk el end) with
+                | Some el' => Some (SIf c rs th thy el' ely) | None => None end
       end
   | _ => None
   end.
 
-Fixpoint rw_inner (f : block -> option block) (b : block) : option block :=
+Fixpoint rw_inner (b : block) : option block :=
   match b with
   | [] => None
-  | x :: b' => match rw_stmt f x with
+  | x :: b' => match rw_stmt x with
                | Some x' => Some (x' :: b')
-               | None => match rw_inner f b' with Some r => Some (x :: r) | None => None end
+               | None => match rw_inner b' with Some r => Some (x :: r) | None => None end
                end
   end.
-Definition rw_block (f : block -> option block) (b : block) : option block :=
-  match f b with Some b' => Some b' | None => rw_inner f b end.
+Definition rw_block (b : block) : option block :=
+  match f b with Some b' => Some b' | None => rw_inner b end.
+
+(* the block the traversal rewrites *)
+Fixpoint rw_target_stmt (s : stmt) {struct s} : option block :=
+  let tg_blk := fix tg_blk (b : list stmt) {struct b} : option block :=
+    match b with
+    | [] => None
+    | x :: b' => match rw_target_stmt x with Some r => Some r | None => tg_blk b' end
+    end in
+  match s with
+  | SFor _ _ _ _ _ _ body _ => match f body with Some _ => Some body | None => tg_blk body end
+  | SIf _ _ th _ el _ =>
+      match (match f th with Some _ => Some th | None => tg_blk th end) with
+      | Some r => Some r
+      | None => match f el with Some _ => Some el | None => tg_blk el end
+      end
+  | _ => None
+  end.
+Fixpoint rw_target_inner (b : block) : option block :=
+  match b with
+  | [] => None
+  | x :: b' => match rw_target_stmt x with Some r => Some r | None => rw_target_inner b' end
+  end.
+Definition rw_target (b : block) : option block :=
+  match f b with Some _ => Some b | None => rw_target_inner b end.
+End Rw.
 
 Definition block_overlap (p : prog) (o : val) : option prog :=
   match rw_block (block_overlap_at (p_body p) o) (p_body p) with
